@@ -657,3 +657,46 @@ Proof.
   - intros n e Hin. destruct (Hnames (n, e) Hin) as [Ha Hb]. split; [|exact Hb].
     exact (lca_names_subset _ t n Ha).
 Qed.
+
+(* ---------- the guard in terms of the pattern: at least two present leaves ---------- *)
+
+Lemma filter_absent isP t : has_present isP t = false -> filter isP (tips t) = [].
+Proof.
+  intros H. assert (Hn := no_present_tips isP t H). induction (tips t) as [|x xs IH]; [reflexivity|].
+  cbn [filter]. rewrite (Hn x (or_introl eq_refl)). apply IH. intros m Hm. apply Hn. right. exact Hm.
+Qed.
+
+Lemma lca_internal_if_two_present isP t :
+  (2 <= length (filter isP (tips t)))%nat -> is_tip (lca_sub isP t) = false.
+Proof.
+  induction t as [n cs IH] using tree_ind'. intros H2. rewrite lca_sub_node.
+  assert (Hself : is_tip (Node n cs) = false).
+  { destruct cs as [|c0 cs0]; [|reflexivity]. cbn [tips filter] in H2. destruct (isP n); cbn [length] in H2; lia. }
+  destruct (flat_map (lca_step isP) cs) as [|r [|r2 rest]] eqn:E; try exact Hself.
+  destruct (lca_step_single isP cs r E) as [pre [c [post [E1 [E2 [E3 [E4 E5]]]]]]]. subst r.
+  assert (Hc : In c cs) by (subst cs; apply in_or_app; right; left; reflexivity).
+  rewrite Forall_forall in IH. apply (IH c Hc).
+  destruct cs as [|c0 cs0]; [destruct Hc|]. change (tips (Node n (c0 :: cs0))) with (flat_map tips (c0 :: cs0)) in H2.
+  rewrite E1 in H2. rewrite flat_map_app in H2. cbn [flat_map] in H2. rewrite !filter_app in H2.
+  assert (Habs : forall ds, Forall (fun d => has_present isP d = false) ds -> filter isP (flat_map tips ds) = []).
+  { intros ds Hds. induction Hds as [|d ds Hd _ IHd]; [reflexivity|]. cbn [flat_map]. rewrite filter_app, (filter_absent isP d Hd), IHd. reflexivity. }
+  rewrite (Habs pre E2), (Habs post E3) in H2. cbn [app] in H2. rewrite app_nil_r in H2. exact H2.
+Qed.
+
+Corollary top_down_replays_two_presences pat t mode md ev :
+  NoDup (names t) -> pattern_known pat t -> (md = 0 \/ md = -1) ->
+  ((2 <= length (filter (fun n => match lookup n pat with Some s => (s =? 1)%Z | None => false end) (tips t)))%nat
+   \/ mode = 1) ->
+  top_down pat t mode md = Ok ev ->
+  reproduces md pat t ev.
+Proof.
+  intros Hd Hpk Hmd Hguard. apply top_down_replays; try assumption.
+  destruct Hguard as [H2|H1]; [left|right; exact H1].
+  apply lca_internal_if_two_present.
+  assert (E : filter (present_ge1 (recode md pat)) (tips t) =
+              filter (fun n => match lookup n pat with Some s => s =? 1 | None => false end) (tips t)).
+  { apply filter_ext_in. intros n Hn. destruct (Hpk n Hn) as [s [El Hs]]. unfold present_ge1.
+    rewrite lookup_recode, El. cbn [option_map].
+    destruct Hs as [E|[E|E]]; subst s; cbn; try reflexivity. destruct Hmd; subst md; reflexivity. }
+  rewrite E. exact H2.
+Qed.
